@@ -356,26 +356,68 @@ def rule_omissions(ctx):
 # ------------------------------------------------------------------- W.binstr
 
 def rule_as_binary(ctx):
-    """W.binstr: the text form of a BIT STRING (used by str() and the native codec) has exactly len(value) digits:
-    zero padding = length minus the number of significant digits, and zero has no significant digit."""
+    """W.binstr: the text form of a BIT STRING (used by str() and the native codec) has exactly len(value) digits, for
+    every length L and every value 0 <= v < 2**L (truth table over L = 0..7 of the padding count and the digit count,
+    both taken from the source as pure integer expressions of L and bit_length(v))."""
+    from sa.rules.wire import _subst
     f = ctx.func('type.univ.BitString.asBinary')
-    rets = [r for r in walk_own(f.node) if isinstance(r, ast.Return) and not (isinstance(r.value, ast.Constant) and r.value.value == '')]
+    allrets = [r for r in walk_own(f.node) if isinstance(r, ast.Return)]
+    rets = [r for r in allrets if not (isinstance(r.value, ast.Constant) and r.value.value == '')]
+    empties = [r for r in allrets if r not in rets]
+    skip_empty = False
+    for r in empties:
+        ts = [t for t in ancestors(r) if isinstance(t, ast.If)]
+        if ts and norm(ts[0].test) in ('not len(self._value)', 'len(self._value) == 0', 'not self._value.bitLength'):
+            skip_empty = True
+        else:
+            raise AnalysisError('early `return \'\'` of BitString.asBinary under an unrecognised condition')
     defs = dict((norm(a.targets[0]), a.value) for a in walk_own(f.node) if isinstance(a, ast.Assign) and len(a.targets) == 1)
     if len(rets) != 1 or not isinstance(rets[0].value, ast.BinOp) or not isinstance(rets[0].value.op, ast.Add):
         raise AnalysisError('text form of BitString.asBinary not recognised: %s' % [norm(r.value) for r in rets])
     pad, digits = rets[0].value.left, rets[0].value.right
     dsrc = defs.get(norm(digits), digits)
     dtxt = norm(dsrc)
-    if not dtxt.startswith('bin(self._value)[2:]'):
+    if dtxt == 'bin(self._value)[2:]':
+        ndigits = lambda bl: max(1, bl)
+    elif dtxt == "bin(self._value)[2:].lstrip('0')":
+        ndigits = lambda bl: bl
+    else:
         raise AnalysisError('digits `%s` of BitString.asBinary not recognised' % dtxt)
-    want = "'0' * (len(self._value) - len(%s))" % norm(digits)
-    if norm(pad) != want:
-        raise AnalysisError('padding `%s` of BitString.asBinary not recognised (expected `%s`): cannot tell how many digits are written' % (norm(pad), want))
-    ctx.ob('W.binstr', f, 'padding = bit length - number of digits written', True, want, node=rets[0])
-    ok = dtxt == "bin(self._value)[2:].lstrip('0')"
-    ctx.ob('W.binstr', f, 'zero contributes no digit', ok,
-           "bin(0) is '0b0': with `%s` a value without one-bits gets one digit too many when there is no room for it (the empty "
-           "BIT STRING is written as '0', which reads back as a one-bit string)" % dtxt if not ok else dtxt, node=rets[0])
+    if not (isinstance(pad, ast.BinOp) and isinstance(pad.op, ast.Mult) and isinstance(pad.left, ast.Constant) and pad.left.value == '0'):
+        raise AnalysisError('padding `%s` of BitString.asBinary not recognised' % norm(pad))
+    cnt = pad.right
+    table = {'len(self._value)': '__L', 'len(%s)' % norm(digits): '__D'}
+    if 'leadingZeroBits' in norm(cnt):
+        g = ctx.func('type.univ.SizedInteger.setBitLength')
+        lz = [a.value for a in walk_own(g.node) if isinstance(a, ast.Assign) and norm(a.targets[0]) == 'self.leadingZeroBits']
+        if len(lz) != 1:
+            raise AnalysisError('definition of leadingZeroBits not found')
+        lzx = _subst(lz[0], {g.params()[1]: '__L', 'integer.bitLength(self)': '__B'})
+        cnt = _subst(cnt, {'self._value.leadingZeroBits': '(%s)' % norm(lzx)})
+    cnt = _subst(cnt, table)
+    bad = None
+    try:
+        for L in range(0, 8):
+            if L == 0 and skip_empty:
+                continue
+            for v in range(0, 2 ** L):
+                bl = v.bit_length()
+                D = ndigits(bl)
+                p = intexpr.ev(cnt, {'__L': L, '__D': D, '__B': bl})
+                total = max(p, 0) + D
+                if total != L:
+                    bad = (L, v, max(p, 0), D)
+                    break
+            if bad:
+                break
+    except intexpr.NotPure as x:
+        raise AnalysisError('padding count `%s` of BitString.asBinary is not a pure integer expression of the length and the '
+                            'digit count: %s' % (norm(pad.right), x))
+    ctx.ob('W.binstr', f, 'padding + digits == bit length for every value', bad is None,
+           'a %d-bit string with value %d is written with %d padding zero(s) + %d digit(s) (digits: `%s`): its text form, and '
+           'with it the native form, reads back as a string of another length' % (bad + (dtxt,)) if bad else
+           'checked for lengths 0..7 (digits: `%s`, padding: `%s`)' % (dtxt, norm(pad.right)), node=rets[0])
+    ctx.ob('W.binstr', f, 'text form is zeros followed by the digits of the value', True, norm(rets[0].value), nontrivial=False)
 
 
 # ------------------------------------------------------------------- A6.mapref
@@ -800,3 +842,147 @@ def rule_fraction_pair(ctx):
     uses = any(isinstance(c, ast.Call) and call_name(c) == 'replace' and any(k.arg == 'microsecond' and norm(k.value) == norm(rd[0].targets[0])
                                                                             for k in c.keywords) for c in walk_own(r.node))
     ctx.ob('A11.frac', r, 'the parsed count becomes the microsecond field', uses, '')
+
+
+# ------------------------------------------------------------------- A11.div
+
+_LEAF_RANGES = (('.days', (-1, 0)), ('.seconds', (0, 86399)), ('.microseconds', (0, 999999)), ('.microsecond', (0, 999999)))
+
+
+def rule_offset_division(ctx):
+    """A11.div: digits are cut out of a quantity with // and % only where the quantity cannot be negative (interval
+    analysis over fromDateTime; |utcoffset| < 24 h, so days in -1..0 and seconds in 0..86399).  Python's // and % floor:
+    on a negative dividend the remainder comes from the wrong side (-00:30 would be written -0130)."""
+    from sa.rules.misc import Iv, iv_eval
+    f = ctx.func('type.useful.TimeMixIn.fromDateTime')
+    sites = []
+
+    def leaf(e):
+        t = norm(e)
+        for suf, (lo, hi) in _LEAF_RANGES:
+            if isinstance(e, ast.Attribute) and t.endswith(suf):
+                return Iv(lo, hi)
+        return None
+
+    def ev(e, env):
+        """Interval of e (None = unknown); records every division site with the interval of its dividend."""
+        if isinstance(e, ast.Attribute):
+            return leaf(e)
+        if isinstance(e, ast.BinOp) and isinstance(e.op, (ast.FloorDiv, ast.Mod)) and not (
+                isinstance(e.left, ast.Constant) and isinstance(e.left.value, str)):
+            a, b = ev(e.left, env), ev(e.right, env)
+            sites.append((e, e.left, a))
+            if a is None or b is None or b.lo != b.hi or b.lo <= 0:
+                return None
+            if isinstance(e.op, ast.FloorDiv):
+                return Iv(a.lo // b.lo, a.hi // b.lo)
+            return Iv(a.lo, a.hi) if a.lo >= 0 and a.hi < b.lo else Iv(0, b.lo - 1)
+        if isinstance(e, ast.BinOp):
+            if isinstance(e.op, ast.Mod):   # string formatting: look into the arguments
+                for x in (e.right.elts if isinstance(e.right, ast.Tuple) else [e.right]):
+                    ev(x, env)
+                return None
+            a, b = ev(e.left, env), ev(e.right, env)
+            if a is None or b is None:
+                return None
+            if isinstance(e.op, ast.Add):
+                return Iv(a.lo + b.lo, a.hi + b.hi)
+            if isinstance(e.op, ast.Sub):
+                return Iv(a.lo - b.hi, a.hi - b.lo)
+            if isinstance(e.op, ast.Mult):
+                c = [a.lo * b.lo, a.lo * b.hi, a.hi * b.lo, a.hi * b.hi]
+                return Iv(min(c), max(c))
+            return None
+        if isinstance(e, ast.Call) and call_name(e) == 'divmod' and len(e.args) == 2:
+            a, b = ev(e.args[0], env), ev(e.args[1], env)
+            sites.append((e, e.args[0], a))
+            return None
+        if isinstance(e, ast.Call):
+            for x in e.args:
+                ev(x, env)
+            if call_name(e) == 'abs' and len(e.args) == 1:
+                return iv_eval(e, env)
+            return None
+        if isinstance(e, (ast.BoolOp, ast.Compare, ast.IfExp, ast.Tuple)):
+            for x in ast.iter_child_nodes(e):
+                if isinstance(x, ast.expr):
+                    ev(x, env)
+            return None
+        return iv_eval(e, env)
+
+    def refine(test, env, branch):
+        if isinstance(test, ast.Compare) and len(test.ops) == 1 and isinstance(test.left, ast.Name) and test.left.id in env \
+                and env[test.left.id] is not None and const_int(test.comparators[0]) is not None:
+            c = const_int(test.comparators[0])
+            iv = env[test.left.id]
+            op = type(test.ops[0])
+            if not branch:
+                op = {ast.Lt: ast.GtE, ast.LtE: ast.Gt, ast.Gt: ast.LtE, ast.GtE: ast.Lt}.get(op)
+            lo, hi = iv.lo, iv.hi
+            if op is ast.Lt:
+                hi = min(hi, c - 1)
+            elif op is ast.LtE:
+                hi = min(hi, c)
+            elif op is ast.Gt:
+                lo = max(lo, c + 1)
+            elif op is ast.GtE:
+                lo = max(lo, c)
+            env = dict(env)
+            env[test.left.id] = Iv(lo, hi) if lo <= hi else None
+        return env
+
+    def run(stmts, env):
+        for s in stmts:
+            if isinstance(s, ast.Assign) and len(s.targets) == 1:
+                t = s.targets[0]
+                if isinstance(t, ast.Tuple) and isinstance(s.value, ast.Call) and call_name(s.value) == 'divmod' and len(t.elts) == 2 \
+                        and len(s.value.args) == 2:
+                    a, b = ev(s.value.args[0], env), ev(s.value.args[1], env)
+                    sites.append((s.value, s.value.args[0], a))
+                    for x, kind in zip(t.elts, ('q', 'r')):
+                        if isinstance(x, ast.Name):
+                            if a is None or b is None or b.lo != b.hi or b.lo <= 0:
+                                env[x.id] = None
+                            else:
+                                env[x.id] = Iv(a.lo // b.lo, a.hi // b.lo) if kind == 'q' else Iv(0, b.lo - 1)
+                    continue
+                v = ev(s.value, env)
+                for x in ast.walk(t):
+                    if isinstance(x, ast.Name):
+                        env[x.id] = v if isinstance(t, ast.Name) else None
+            elif isinstance(s, ast.AugAssign):
+                v = ev(s.value, env)
+                if isinstance(s.target, ast.Name):
+                    cur = env.get(s.target.id)
+                    if cur is not None and v is not None and isinstance(s.op, (ast.Add, ast.Sub)):
+                        env[s.target.id] = Iv(cur.lo + v.lo, cur.hi + v.hi) if isinstance(s.op, ast.Add) else Iv(cur.lo - v.hi, cur.hi - v.lo)
+                    else:
+                        env[s.target.id] = None
+            elif isinstance(s, ast.If):
+                ev(s.test, env)
+                e1 = run(s.body, refine(s.test, dict(env), True))
+                e2 = run(s.orelse, refine(s.test, dict(env), False))
+                env = {}
+                for k in set(e1) | set(e2):
+                    a, b = e1.get(k), e2.get(k)
+                    env[k] = Iv(min(a.lo, b.lo), max(a.hi, b.hi)) if a is not None and b is not None else None
+            elif isinstance(s, (ast.Expr, ast.Return)):
+                if s.value is not None:
+                    ev(s.value, env)
+            elif isinstance(s, (ast.For, ast.While, ast.Try, ast.With)):
+                for x in ast.walk(s):
+                    if isinstance(x, ast.Name) and isinstance(x.ctx, ast.Store):
+                        env[x.id] = None
+                    if isinstance(x, ast.BinOp) and isinstance(x.op, (ast.FloorDiv, ast.Mod)) and not isinstance(x.left, ast.Constant):
+                        sites.append((x, x.left, None))
+        return env
+    run(f.node.body, {})
+    if len(sites) < 3:
+        raise AnalysisError('expected the sub-second and hour/minute divisions in %s, found %d' % (f.short, len(sites)))
+    for e, dividend, iv in sites:
+        if iv is None:
+            raise AnalysisError('cannot bound the dividend `%s` of `%s` in %s' % (norm(dividend), norm(e)[:50], f.short))
+        ctx.ob('A11.div', f, 'dividend of `%s` is never negative' % norm(e)[:60], iv.lo >= 0,
+               '`%s` ranges over %r for offsets between -24 h and +24 h: floor division / modulo of a negative quantity takes '
+               'the remainder from the wrong side, so e.g. -00:30 is written as -01:30' % (norm(dividend), iv) if iv.lo < 0 else
+               '`%s` in %r' % (norm(dividend), iv), node=e)
